@@ -12,7 +12,7 @@ SHARDS = {"quick": 8, "thorough": 16}
 RULE = ("1..3 hosts on a simulated UDP network, each with source IPv4 address, 48-bit id (byte-boundary bias), port 1..65535, "
         "32-char serial, name net_<tt>_<suffix> with tt = any byte in lower or upper hex, reported IP equal to or different from "
         "the source, 0..80 trailing body bytes, reply version 2 or 3, listening on 6445 or 20086, replying from either port after "
-        "a delay below the timeout; replies built by the independent reply builder (anchored to captured replies). Hosts answer "
+        "a delay below the timeout (default 5 s; also 0.5..9 s, in particular with auto-connected hosts whose TCP side hangs, refuses or is unreachable); replies built by the independent reply builder (anchored to captured replies). Hosts answer "
         "only a datagram that arrives on their port, carries a valid signature, decrypts and equals the well-known probe. "
         "Targets: limited broadcast, a directed (subnet) broadcast, a literal address or a host name. With auto_connect (V2 hosts only) the host's TCP port answers, refuses, is unreachable or hangs. Oracle: Discover.discover / discover_single return exactly one object per host with ip == source "
         "address and port, id, sn, name, type, version as encoded; AirConditioner iff tt == 0xAC else Device. All 256 type bytes "
@@ -144,8 +144,27 @@ def run(ctx) -> None:
             case = {"hosts": [h], "single": tt % 5 == 0, "target": [None, "directed", "name"][tt % 3] if tt % 5 else None}
             ctx.check(case, lambda c: _run_one(ctx, c))
     ctx.sweep("all 256 type bytes x both versions", n, True)
+    # the timeout argument x hosts whose TCP side is slow / absent (every host answers the probe within a tenth of the timeout)
+    k = 0
+    for timeout in (0.5, 1, 2, 5, 9):
+        for tcps in (("hang",), ("unreachable",), ("refuse",), ("ok", "hang"), ("hang", "ok", "unreachable"), ("ok",)):
+            for target in (None, "directed"):
+                k += 1
+                if not ctx.mine(k):
+                    continue
+                hosts = [{"ip": f"10.2.{k % 200}.{i + 1}", "id": 0x010203040500 + 16 * k + i, "port": 6444, "sn": f"{k:030d}{i:02d}", "tt": 0xAC, "suffix": "F7B4", "upper": False,
+                          "version": 2, "listen_port": 6445, "src_port": 6445, "delay": round(timeout * 0.02 * (i + 1), 4), "extra": "", "tcp": t} for i, t in enumerate(tcps)]
+                case = {"hosts": hosts, "target": target, "auto_connect": True, "timeout": timeout}
+                ctx.check(case, lambda c: _run_one(ctx, c))
+    ctx.sweep("timeout argument x TCP behaviour of auto-connected hosts", k, True)
+
     def with_mode(c):
-        return st.tuples(st.sampled_from([None, None, "directed", "name"]), st.booleans()).map(lambda t: dict(c, target=t[0], auto_connect=t[1]))
+        def fin(t):
+            out = dict(c, target=t[0], auto_connect=t[1])
+            if t[2] is not None and all(h["delay"] < t[2] * 0.9 for h in c["hosts"]):
+                out["timeout"] = t[2]
+            return out
+        return st.tuples(st.sampled_from([None, None, "directed", "name"]), st.booleans(), st.sampled_from([None, None, 0.5, 1.5, 2, 8])).map(fin)
     cases = st.one_of(
         st.tuples(host_strategy(1)).map(lambda t: {"hosts": list(t)}),
         st.tuples(host_strategy(1), st.booleans()).map(lambda t: {"hosts": [t[0]], "single": t[1]}),
